@@ -102,6 +102,8 @@ def run_case(case):
             if k < 3:
                 x = crandn(rng, ish, dt)
                 y = crandn(rng, osh, dt if dt.kind == "c" else np.float64)
+                if k == 1:          # memory-layout variant: Fortran-ordered probes
+                    x, y = np.asfortranarray(x), np.asfortranarray(y)
             else:                         # sparse pair: isolates index-map errors
                 x = np.zeros(ish, dt)
                 y = np.zeros(osh, dt if dt.kind == "c" else np.float64)
